@@ -56,6 +56,14 @@ pub const ROOTS: &[Root] = &[
     Root { name: "wac4", fen: "r1bq2rk/pp3pbp/2p1p1pQ/7P/3P4/2PB1N2/PP3PPR/2KR4 w - - 0 1", class: 2 },
     Root { name: "wac5", fen: "5k2/6pp/p1qN4/1p1p4/3P4/2PKP2Q/PP3r2/3R4 b - - 0 1", class: 2 },
     Root { name: "bk1", fen: "1k1r4/pp1b1R2/3q2pp/4p3/2B5/4Q3/PPP2B2/2K5 b - - 0 1", class: 2 },
+    Root { name: "ep-only-move-b", fen: "8/6R1/R7/7k/6Pp/4N3/8/K7 b - g3 0 1", class: 0 },
+    Root { name: "ep-only-move-w", fen: "k7/8/4n3/6pP/7K/r7/6r1/8 w - g6 0 1", class: 0 },
+    Root { name: "ep-opening-b", fen: "rnbqkbnr/ppp1pppp/8/8/P2pP3/8/1PPP1PPP/RNBQKBNR b KQkq e3 0 3", class: 2 },
+    Root { name: "ep-opening-w", fen: "rnbqkbnr/1ppp1ppp/8/p2Pp3/8/8/PPP1PPPP/RNBQKBNR w KQkq e6 0 3", class: 2 },
+    Root { name: "ep-then-promo-w", fen: "7k/7p/4p3/4Pp2/6p1/8/1p3P1K/2R5 w - - 0 1", class: 1 },
+    Root { name: "ep-then-promo-w2", fen: "7k/7p/4p3/4Pp2/5Pp1/8/1p5K/2R5 b - f3 0 1", class: 1 },
+    Root { name: "ep-then-promo-b", fen: "2r5/1P3p1k/8/6P1/4pP2/4P3/7P/7K b - - 0 1", class: 1 },
+    Root { name: "ep-then-promo-b2", fen: "2r5/1P5k/8/5pP1/4pP2/4P3/7P/7K w - f6 0 1", class: 1 },
     Root { name: "ep-rank-pin", fen: "8/8/8/KPp4r/8/8/8/4k3 w - c6 0 1", class: 0 },
     Root { name: "ep-diag-pin", fen: "4k3/6b1/8/3pP3/8/2K5/8/8 w - d6 0 1", class: 0 },
     Root { name: "castle-in-check", fen: "r3k2r/8/8/8/4q3/8/8/R3K2R w KQkq - 0 1", class: 1 },
